@@ -1,5 +1,5 @@
 """Check runner: worker fan-out, Hypothesis chunking, violation confirmation, known findings, evidence."""
-import os, sys, json, time, hashlib, subprocess, traceback, importlib, random, glob
+import shutil, os, sys, json, time, hashlib, subprocess, traceback, importlib, random, glob
 
 from paths import VERIF, REPO, BUILD, WORK, REPLAY_OUT, EVIDENCE
 PY = sys.executable
@@ -270,10 +270,12 @@ def merge(parts):
 
 def run_workers(modname, prop, tier, seed, nworkers, budget_s):
     """Fan out `nworkers` processes running modname.worker(ctx); returns merged dict."""
-    wd = os.path.join(WORK, prop)
+    for old in glob.glob(os.path.join(WORK, prop, 'parts_*')):
+        pid = old.rsplit('_', 1)[-1]
+        if not (pid.isdigit() and os.path.exists('/proc/' + pid)):
+            shutil.rmtree(old, ignore_errors=True)
+    wd = os.path.join(WORK, prop, 'parts_%d' % os.getpid())      # per run: overlapping runs of one check must not share files
     os.makedirs(wd, exist_ok=True)
-    for f in glob.glob(os.path.join(wd, 'part-*.json')):
-        os.unlink(f)
     procs = []
     for k in range(nworkers):
         out = os.path.join(wd, 'part-%d.json' % k)
